@@ -280,13 +280,16 @@ def builder_names(ctx, rng, count):
     for t in range(count):
         a, b, c = rng.randint(1, 3), rng.randint(1, 3), rng.randint(1, 4)
         f = y[0] ** a + y[1] ** b - c * y[0] * y[1] + rng.randint(0, 2)
-        g = [3 - y[0] - y[1], y[0] - 0.1, y[1] - 0.2]          # two constraints of the same shape (2 terms)
+        # two constraints of the same shape (2 terms), and one constraint given twice (two separate, equal objects)
+        g = [3 - y[0] - y[1], y[0] - 0.1, y[1] - 0.2, y[0] - 0.1]
         p = x[0] ** (2 * a) + x[1] ** 2 - c * x[0] * x[1] + 1
         gp = [4 - x[0] ** 2 - x[1] ** 2, 1 - x[0] ** 2, 9 - x[1] ** 2]      # two constraints with n = 2, m = 2
         ell = rng.randint(0, 1)
         for form in ('primal', 'dual'):
             try:
                 probs.append(('sig_relaxation', so.sig_relaxation(f, form=form, ell=ell)))
+                # conditional constraints (a domain X): other compiled rows, other auxiliary Variables
+                probs.append(('sig_relaxation over X', so.sig_relaxation(f, X=so.infer_domain(f, g[:3], []), form=form, ell=0)))
                 probs.append(('sig_constrained_relaxation', so.sig_constrained_relaxation(f, g, [], form=form, p=rng.randint(0, 1), q=rng.randint(1, 2), ell=ell)))
                 probs.append(('poly_relaxation', so.poly_relaxation(p, form=form, poly_ell=ell)))
                 probs.append(('poly_constrained_relaxation', so.poly_constrained_relaxation(p, gp, [], form=form, p=rng.randint(0, 1), q=rng.randint(1, 2), ell=ell)))
